@@ -107,6 +107,25 @@ pub fn run_case(kvs: &[Kv], geom: Geom, sc: Scope) -> Result<u64, String> {
                                 lo, key_str(lok), hi, key_str(hik), kvs_str(&got), kvs_str(&want)
                             ));
                         }
+                        // the same bounds through the automaton builders (they carry their own copies of the setters)
+                        if kvs.len() <= 3 {
+                            let got = drain(apply_bounds(f.search(fst::automaton::AlwaysMatch), lo, lok, hi, hik).into_stream())?;
+                            let mut wb = f.search_with_state(fst::automaton::AlwaysMatch);
+                            wb = match lo { Lo::None => wb, Lo::Ge => wb.ge(lok), Lo::Gt => wb.gt(lok) };
+                            wb = match hi { Hi::None => wb, Hi::Le => wb.le(hik), Hi::Lt => wb.lt(hik) };
+                            let mut ws = wb.into_stream();
+                            let mut gotw: Vec<Kv> = vec![];
+                            while let Some((k, v, _)) = ws.next() {
+                                gotw.push((k.to_vec(), v.value()));
+                            }
+                            n += 2;
+                            if got != want || gotw != want {
+                                return Err(format!(
+                                    "search(AlwaysMatch) / search_with_state(AlwaysMatch) with {:?}({}) {:?}({}) gave {} / {} expected {}",
+                                    lo, key_str(lok), hi, key_str(hik), kvs_str(&got), kvs_str(&gotw), kvs_str(&want)
+                                ));
+                            }
+                        }
                         if sc.wrappers {
                             let mut mb = m.range();
                             mb = match lo { Lo::None => mb, Lo::Ge => mb.ge(lok), Lo::Gt => mb.gt(lok) };
